@@ -13,7 +13,7 @@ From Coq Require Import ZArith Arith List Bool.
 From QV.Core Require Import OF QcOF Sums Mat Cplx Psd.
 From QV.Model Require Import QObj HermEmbed C18_Lindblad.
 From QV.Proofs Require Import C18_Algebra C18_Misc C18_Action C18_Extract C18_Rebuild C18_Verdict C18_Convert C18_Physical
-  C18_Hermitian C18_Bundle C18_Witness.
+  C18_Hermitian C18_JumpHK C18_JumpPSD C18_TaylorHP C18_TaylorTail C18_Bundle C18_Witness.
 Import ListNotations.
 
 (* ================================================================ 1. GKSL action *)
@@ -38,6 +38,29 @@ Theorem C18_gksl_action_jump : forall (F : OF) (d : nat), (0 < d)%nat ->
   apply_cb d (jump_d d cs) rho i j = gksl_jump d cs rho i j.
 Proof. exact apply_jump_gksl. Qed.
 Print Assumptions C18_gksl_action_jump.
+
+(* the jump-operator generator in (H, K) form: for jump operators given as c = a I + sum_b g_b B_{b+1} (any family B; for an orthonormal
+   basis with B_0 = I/sd: a = tr c / d, g_b = <B_{b+1}, c>) the generator equals, entry by entry, the generator of
+   K = sum_c g g^dagger and H_eff = sum_c (i/2)(conj a c' - a c'^dagger), c' = c - a I; H_eff and K are Hermitian; and the two forms
+   of the GKSL right-hand side agree on every matrix.  (So the identity component of a jump operator matters: it is H_eff.) *)
+Theorem C18_jump_hk_form : forall (F : OF) (d : nat), (0 < d)%nat ->
+  forall (B : nat -> cmat F) (l : list (CF F * (nat -> CF F))),
+  meq (d * d) (d * d) (jump_d d (jumps_ops d B l)) (lcb_hk d B (jumps_H d B l) (jumps_K l)) /\
+  hermitian d (jumps_H d B l) /\ hermitian (d * d - 1) (jumps_K l) /\
+  (forall (rho : cmat F) i j, (i < d)%nat -> (j < d)%nat ->
+     gksl_jump d (jumps_ops d B l) rho i j = gksl d B (jumps_H d B l) (jumps_K l) rho i j).
+Proof. exact jump_hk_form. Qed.
+Print Assumptions C18_jump_hk_form.
+
+(* consequently (K = sum g g^dagger is PSD: sum of squares): the stored generator of EVERY set of jump operators is judged physical,
+   for every tolerance atol >= 0 (orthonormal Hermitian complete basis with B_0 = I/sd) *)
+Theorem C18_jump_generator_physical : forall (F : OF) (d : nat), (0 < d)%nat ->
+  forall (B : nat -> cmat F) (sd : F), basis_orthonormal d B -> basis_hermitian d B -> basis_0th_identity d sd B ->
+  cmul F sd sd = ofnat d -> basis_complete d B ->
+  forall (l : list (CF F * (nat -> CF F))) (atol : F), kle F (c0 F) atol ->
+  is_physical_dec F d B atol (cre (chs_of_cb d B (jump_d d (jumps_ops d B l)))) = true.
+Proof. exact jump_generator_physical. Qed.
+Print Assumptions C18_jump_generator_physical.
 
 (* the routine AS CODED BEFORE FIX c18-jump-operators-cdagger-c (c in place of c^dagger c) violates the GKSL equation and trace
    preservation: c = |0><1|, rho = |1><1| on one qubit *)
@@ -214,6 +237,33 @@ Theorem C18_to_gate_tp_partial : forall (F : OF) (frz : rmat F -> rmat F) n,
   (row0_zero F n L -> forall (c : nat -> F) j, poly_sum n c L N 0%nat j = cmul F (c 0%nat) (if Nat.eqb 0 j then c1 F else c0 F)).
 Proof. exact taylor_all. Qed.
 Print Assumptions C18_to_gate_tp_partial.
+
+(* the same at the level of the MAP denoted by the computational-basis superoperator: Hermiticity-preserving maps are closed under
+   real polynomials; a trace-annihilating generator gives trace-preserving polynomials; the GKSL generator (Hermitian H, K) is both,
+   hence EVERY Taylor partial sum of exp(L) maps Hermitian matrices to Hermitian matrices and preserves the trace.
+   Still NOT proved: complete positivity (Lindblad) and convergence. *)
+Theorem C18_to_gate_hp_tp_partial : forall (F : OF) (d : nat), (0 < d)%nat -> forall (B : nat -> cmat F),
+  (forall (c : nat -> F) (L : cmat F) N, hp_sup d L -> hp_sup d (cpoly_sum (d * d) c L N)) /\
+  (forall (c : nat -> F) (L X : cmat F) N, ta_sup d L ->
+     mtrace d (apply_cb d (cpoly_sum (d * d) c L N) X) = cmul (CF F) (zof (c 0%nat)) (mtrace d X)) /\
+  (forall (H K : cmat F) N, hermitian d H -> hermitian (d * d - 1) K ->
+     let T := cpoly_sum (d * d) (fun k => kdiv F (c1 F) (ffact F k)) (lcb_hk d B H K) N in
+     hp_sup d (lcb_hk d B H K) /\ ta_sup d (lcb_hk d B H K) /\
+     hp_sup d T /\ (forall X : cmat F, mtrace d (apply_cb d T X) = mtrace d X)).
+Proof. exact taylor_cb_all. Qed.
+Print Assumptions C18_to_gate_hp_tp_partial.
+
+(* the rational Taylor ENCLOSURE: for ||L||_inf (max absolute row sum, [rs]) <= x and x < N + 2, every later Taylor partial sum is
+   entrywise within  R_N = x^(N+1)/(N+1)! * (N+2)/(N+2-x)  ([tk x (S N)] = x^(N+1)/(N+1)!) of T_N — so is their limit exp(L)
+   (the limit is not formalised).  The check evaluates T_N and R_N exactly and tests scipy's expm against them. *)
+Theorem C18_taylor_tail_bound : forall (F : OF) (frz : rmat F -> rmat F) (n : nat),
+  (forall M i j, (i < n)%nat -> (j < n)%nat -> frz M i j = M i j) ->
+  forall (L : rmat F) (x : F), kle F (c0 F) x -> (forall i, (i < n)%nat -> kle F (rs F n L i) x) ->
+  forall N : nat, let c := @ofnat F (S (S N)) in kle F x c -> x <> c ->
+  forall p i j, (i < n)%nat -> (j < n)%nat ->
+  kle F (fabs F (csub F (texp frz n L (N + p) i j) (texp frz n L N i j))) (cmul F (tk F x (S N)) (kdiv F c (csub F c x))).
+Proof. exact taylor_tail. Qed.
+Print Assumptions C18_taylor_tail_bound.
 
 (* ================================================================ non-vacuity *)
 (* the 2-qubit normalised Pauli basis over Qc (sd = 2) satisfies every basis hypothesis exactly; H = w_H (complex, non-diagonal)
